@@ -30,6 +30,9 @@ CHECKS = {
  'C03': dict(engine='js-c03', technique='bounded-exhaustive enumeration of expression trees x data environments; generated code executed by V8 on a recording runtime and compared with V8 evaluating the fully parenthesised reference',
    text='Every expression tree of operator depth <= 2 (quick) / 3 (thorough) over 6 unary and 23 binary operators, ?:, static members (5 names incl. toString / constructor / __proto__), dynamic index, calls with 0-2 arguments, array literals with holes at every position and spreads, object literals (named, spread, shorthand), explicit parentheses, in every operand position; every number spelling (radices, exponents, beyond 2^53 / 2^63 / float range), string escape and keyword literal of the pool in 11 positions; each in three spellings (minimal parentheses, fully parenthesised, comments between tokens); under every assignment of a, b over a 20-value pool (c over 6 / 20). Equality is Object.is on primitives, structural with hole- and prototype-awareness on containers, same error class on throws. Failing cases are shrunk to a canonical minimal tree and environment before they are compared with the findings list.',
    note='Trusted: V8 (both sides). The reference deviates from plain JavaScript only in null-safe member reads and plain-function calls. Not asserted: evaluation order / short-circuit of sub-expressions with side effects; expressions the parser rejects at Error level.', ref='4/C03'),
+ 'C12': dict(engine='js-c12', technique='exhaustive sweep of Unicode scalar values x successors x embedding contexts through the real compiler and V8, identity oracle on the delivered string',
+   text='Every scalar value below U+3000 plus block boundaries and surrogate / BOM / noncharacter / astral neighbours (quick), every one of the 1,112,064 scalar values (thorough), followed by each of 16 critical successors (digits, hex letters, both quotes, backslash, braces, ampersand, semicolon, u, x, newline), embedded in 15 markup contexts (double / single quoted attribute, class, style, id, slot, data-, data:, mark:, bind: and catch: handler, generic:, extra-attr:, worklet:, static text), as wx:key, template name and static template-is target (looked up), in three string-literal spellings inside expressions, as decimal / hex character references in attribute and text, plus all 2231 named character references. The string the executed code hands to the runtime must equal the denoted string code point for code point.',
+   note='Trusted: V8; the spelling rules for characters a context cannot carry raw (&amp; &lt; &quot; &#39; &#123;, backslash escapes). Names in identifier positions are ASCII-only by the parser and are covered by C02 / C04.', ref='4/C12'),
 }
 
 NOT_YET = {}
